@@ -10,7 +10,9 @@ from common import Check, coq_eval, parse_defs, parse_nlist, cstr, clist, cbool,
 TYPE_POOL = [('TextBuffer', 'TClass', True, []), ('Text', 'TClass', True, []), ('Sub', 'TClass', True, ['TextBuffer']),
              ('SubSub', 'TClass', True, ['Sub', 'TextBuffer']), ('Rec', 'TRecord', False, []), ('GIOThing', 'TRecord', False, []),
              ('Box', 'TBoxedRecord', True, []), ('BoxLike', 'TRecord', False, []), ('Iface0', 'TInterface', True, []),
-             ('Kind', 'TEnum', False, []), ('X2Y', 'TRecord', False, []), ('TextBufferIter', 'TRecord', False, [])]
+             ('Kind', 'TEnum', False, []), ('X2Y', 'TRecord', False, []), ('TextBufferIter', 'TRecord', False, []),
+             # registered types whose get-type function has "_get_" or "_type" more than once (foo_http_get_request_get_type)
+             ('HttpGetRequest', 'TClass', True, []), ('MimeType', 'TBoxedRecord', True, [])]
 SUFFIXES = ['new', 'new_with_x', 'newv', 'get_x', 'do', 'x_new_y', 'renew', 'new_', 'a', 'get_type_name', 'news', 's_register', 'iter_next']
 
 
@@ -94,7 +96,11 @@ def gen_world(rng):
     if rng.random() < 0.5:
         # annotated (method), but the first parameter is a type of an included namespace: it stays a function of this one
         funcs.append(dict(sub='attach_object', first=('!GObject', 1), nparams=2, ret=None, ann_method=True, foreign_method=True))
-    consts = [('FOO_MAJOR', 'MAJOR'), ('%s_MINOR' % barp.upper(), 'MINOR'), ('FOO_EXT_SCALE', 'EXT_SCALE')]
+    for sub in rng.sample(['http_init', 'http_set_proxy', 'mime_guess', 'http_get'], rng.randint(0, 2)):
+        add(sub, None, 0, None)
+    consts = [('FOO_MAJOR', 'MAJOR'), ('%s_MINOR' % barp.upper(), 'MINOR'), ('FOO_EXT_SCALE', 'EXT_SCALE'),
+              # mixed case after the capitalised prefix (GDK_KEY_Escape, GDK_KEY_a, G_GINT64_FORMAT-like PRI names)
+              ('FOO_KEY_Escape', 'KEY_Escape'), ('FOO_KEY_a', 'KEY_a'), ('FOO_PRIkeyval', 'PRIkeyval')]
     return dict(types=types, funcs=funcs, constants=consts, barp=barp, not_described=['BAR_LEGACY'] if barp == 'br' else ['BR_LEGACY'],
                 bar_types=[('BarGadget', 'Gadget')], tag_first=[n for n, k, r, ps in types if k != 'TEnum' and rng.random() < 0.4],
                 tag_only=rng.random() < 0.6)
@@ -226,6 +232,8 @@ def main(tier, seed):
                     intro[cid] = False
         # ---- clauses judged directly
         case = dict(types=w['types'], functions=w['funcs'])
+        prefixes_of = {t_[0]: uscore(t_[0]) for t_ in w['types']}
+        kinds_of = {t_[0]: t_[1] for t_ in w['types']}
         for cid in ('_foo_hidden_fn', 'g_foreign_fn', 'baz_unrelated'):
             if cid in obs:
                 ck.failing_input('a symbol that starts with an underscore or belongs to another namespace is described', dict(case, symbol=cid))
@@ -244,6 +252,14 @@ def main(tier, seed):
             if f.get('ann_method') and sorted(occ) != [(f['first'][0], 'method', f['sub'], None)]:
                 ck.failing_input('a function annotated (method) is not described exactly once, as a method of its first parameter\'s type under '
                                  'its own name', dict(case, symbol=cid), detail=occ)
+            if f['first'] is not None and f['first'][1] == 1 and not f.get('ann_method') and f['first'][0] in prefixes_of \
+                    and f['sub'].startswith(prefixes_of[f['first'][0]] + '_') and len(f['sub']) > len(prefixes_of[f['first'][0]]) + 1 \
+                    and kinds_of[f['first'][0]] != 'TEnum' and f.get('prefix', 'foo') == 'foo':
+                # foo_<type>_<rest> (FooType *self, ...): a method <rest> of that type
+                want_m = (f['first'][0], 'method', f['sub'][len(prefixes_of[f['first'][0]]) + 1:], None)
+                if want_m not in occ:
+                    ck.failing_input('a function that carries the symbol prefix of its first parameter\'s type is not described as that '
+                                     'type\'s method under the rest of its name', dict(case, symbol=cid), detail=dict(expected=want_m, got=occ))
             real = [o for o in occ if o[3] is None]
             if len(real) > 1 or len(occ) > 2:
                 ck.failing_input('a C identifier is described more than once (beyond one moved-to copy)', dict(case, symbol=cid), detail=occ)
